@@ -54,9 +54,62 @@ type concSync struct {
 	inside   func(round int) // this pair is inside its answer: a read of its randomness source has just been served
 	waitNext func(round int) // returns when the next pair of the chain is through its answer (or gives none)
 	answered func(round int) // this pair is through its answer of that round (or gives none)
+	// the nested rounds are also started one pair after the other, in the opposite order: the first pair
+	// to answer is the last one to call StartAuthenticate
+	waitStart func(round int) // returns when the next pair of the chain has made its call of StartAuthenticate (or makes none)
+	started   func(round int) // this pair has made its call of StartAuthenticate of that round (or makes none)
 }
 
-var concAlone = concSync{func() {}, func() {}, func(int) {}, func(int) {}, func(int) {}, func(int) {}}
+var concAlone = concSync{func() {}, func() {}, func(int) {}, func(int) {}, func(int) {}, func(int) {}, func(int) {}, func(int) {}}
+
+// What the user of the process types in once and the application keeps in one place: the passphrase
+// she authenticates her peers with. Per SMP phase there is ONE buffer for all calls of
+// StartAuthenticate and another one (same text) for all calls of ProvideAuthenticationSecret, handed
+// as they are to every conversation of the run - in the concurrent runs all pairs share them, a pair
+// run alone gets its own with the same content. The same goes for the usage data of the extra
+// symmetric key. The library only ever has to read them.
+type concSecrets struct {
+	loopStart, loopAnswer   []byte   // the SMP runs in the middle of the traffic
+	lineStart, lineAnswer   []byte   // the SMP run after the first barrier
+	roundStart, roundAnswer [][]byte // the SMP rounds after the key files
+	usage                   []byte   // UseExtraSymmetricKey
+}
+
+func newConcSecrets() *concSecrets {
+	fresh := func(s string) []byte { return append(make([]byte, 0, len(s)), s...) }
+	cs := &concSecrets{loopStart: fresh("the passphrase of the user"), loopAnswer: fresh("the passphrase of the user"),
+		lineStart: fresh("one more secret of the user"), lineAnswer: fresh("one more secret of the user"),
+		usage: fresh("file transfer 7 of the user")}
+	for k := 0; k < concFreeRounds+concChainRounds; k++ {
+		cs.roundStart = append(cs.roundStart, fresh(fmt.Sprintf("secret %d of the user", k)))
+		cs.roundAnswer = append(cs.roundAnswer, fresh(fmt.Sprintf("secret %d of the user", k)))
+	}
+	return cs
+}
+
+// Every byte slice handed to the library stays the caller's: after the call it must hold what was
+// passed in (the library works on copies; a buffer an application shares between its conversations
+// is state shared between them as soon as the library writes to it). One per pair and run, filled in
+// by the pair's goroutine only and read when that is through.
+type concBufs struct {
+	checked int
+	hits    []string
+}
+
+// to be called before the library call; the function returned, after it
+func (cb *concBufs) hold(call, conv string, buf []byte) func() {
+	before := append([]byte{}, buf...)
+	return func() {
+		cb.checked++
+		if !bytes.Equal(buf, before) {
+			k := 0
+			for k < len(buf) && buf[k] == before[k] {
+				k++
+			}
+			cb.hits = append(cb.hits, fmt.Sprintf("%s of conversation %s: the caller's buffer of %d bytes was passed in as %.40q and holds %.40q after the call (first difference at byte %d)", call, conv, len(before), before, buf, k))
+		}
+	}
+}
 
 // SMP runs after the key files: concFreeRounds in which all pairs answer at the same moment, then
 // concChainRounds in which the answers are nested one inside the other
@@ -93,8 +146,9 @@ func (p *concParty) HandleErrorMessage(code otr3.ErrorCode) []byte {
 
 // one pair doing handshake, traffic, errors, SMP, fragmentation and teardown; the transcript
 // contains everything that is deterministic given the seed (DSA signatures are not: wire bytes omitted)
-func concRun(seed int64, sy concSync) ([]string, []otr3.ValidMessage) {
+func concRun(seed int64, sy concSync, sec *concSecrets) ([]string, []otr3.ValidMessage, *concBufs) {
 	barrier := sy.barrier
+	bufs := &concBufs{}
 	r := rand.New(rand.NewSource(seed))
 	var log []string
 	pairTag := fmt.Sprintf("%x", uint32(seed)&0xffff)
@@ -144,7 +198,9 @@ func concRun(seed int64, sy concSync) ([]string, []otr3.ValidMessage) {
 		m := (*q)[0]
 		*q = (*q)[1:]
 		age()
+		same := bufs.hold("Receive", p.tag, m)
 		plain, ts, err := p.c.Receive(m)
+		same()
 		log = append(log, fmt.Sprintf("%s recv plain=%x err=%s %s", p.tag, plain, otr3.VerifErrClass(err), otr3.VerifSnapString(p.c)))
 		push(p, ts)
 	}
@@ -165,13 +221,17 @@ func concRun(seed int64, sy concSync) ([]string, []otr3.ValidMessage) {
 				txt[j] = byte('a' + r.Intn(26))
 			}
 			age()
+			same := bufs.hold("Send", p.tag, txt)
 			ts, err := p.c.Send(txt)
+			same()
 			log = append(log, fmt.Sprintf("%s send n=%d err=%s", p.tag, len(ts), otr3.VerifErrClass(err)))
 			push(p, ts)
 		case 4:
 			settle()
 		case 5:
-			ts, err := p.c.StartAuthenticate("", []byte("secret"))
+			same := bufs.hold("StartAuthenticate (secret)", p.tag, sec.loopStart)
+			ts, err := p.c.StartAuthenticate("", sec.loopStart)
+			same()
 			log = append(log, fmt.Sprintf("%s smpstart err=%s", p.tag, otr3.VerifErrClass(err)))
 			push(p, ts)
 			settle()
@@ -179,7 +239,9 @@ func concRun(seed int64, sy concSync) ([]string, []otr3.ValidMessage) {
 			if p == a {
 				o = b
 			}
-			ts, err = o.c.ProvideAuthenticationSecret([]byte("secret"))
+			same = bufs.hold("ProvideAuthenticationSecret", o.tag, sec.loopAnswer)
+			ts, err = o.c.ProvideAuthenticationSecret(sec.loopAnswer)
+			same()
 			log = append(log, fmt.Sprintf("%s smpsecret err=%s", o.tag, otr3.VerifErrClass(err)))
 			push(o, ts)
 			settle()
@@ -201,6 +263,16 @@ func concRun(seed int64, sy concSync) ([]string, []otr3.ValidMessage) {
 		}
 	}
 	settle()
+	// the extra symmetric key, its usage data in a buffer all conversations of the user are given
+	if a.c.IsEncrypted() && b.c.IsEncrypted() {
+		age()
+		same := bufs.hold("UseExtraSymmetricKey (usage data)", a.tag, sec.usage)
+		key, ts, err := a.c.UseExtraSymmetricKey(7, sec.usage)
+		same()
+		log = append(log, fmt.Sprintf("%s extrakey %x n=%d err=%s", a.tag, key, len(ts), otr3.VerifErrClass(err)))
+		push(a, ts)
+		settle()
+	}
 	// error replies: the slices returned by Receive are kept (not copied) and looked at again at the
 	// end - a reply must not change after it has been handed out, whatever other conversations do
 	var held []otr3.ValidMessage
@@ -209,13 +281,18 @@ func concRun(seed int64, sy concSync) ([]string, []otr3.ValidMessage) {
 			break
 		}
 		age()
-		ts, _ := a.c.Send([]byte(fmt.Sprintf("text %d of pair %s", k, pairTag)))
+		txt := []byte(fmt.Sprintf("text %d of pair %s", k, pairTag))
+		same := bufs.hold("Send", a.tag, txt)
+		ts, _ := a.c.Send(txt)
+		same()
 		for j, m := range ts {
 			if j == 0 && len(m) > 60 {
 				m[len(m)-12] ^= 1 // inside the base64 text of the message or of its first fragment
 			}
 			age()
+			same := bufs.hold("Receive", b.tag, m)
 			_, back, err := b.c.Receive(m)
+			same()
 			log = append(log, fmt.Sprintf("%s recv damaged err=%s n=%d", b.tag, otr3.VerifErrClass(err), len(back)))
 			held = append(held, back...)
 		}
@@ -236,11 +313,15 @@ func concRun(seed int64, sy concSync) ([]string, []otr3.ValidMessage) {
 			}
 		}
 		log = append(log, fmt.Sprintf("fingerprints %s, %d of 3000 repetitions differ", first, wrong))
-		ts, err := a.c.StartAuthenticate("", []byte("one more secret"))
+		same := bufs.hold("StartAuthenticate (secret)", a.tag, sec.lineStart)
+		ts, err := a.c.StartAuthenticate("", sec.lineStart)
+		same()
 		log = append(log, fmt.Sprintf("%s smpstart err=%s", a.tag, otr3.VerifErrClass(err)))
 		push(a, ts)
 		settle()
-		ts, err = b.c.ProvideAuthenticationSecret([]byte("one more secret"))
+		same = bufs.hold("ProvideAuthenticationSecret", b.tag, sec.lineAnswer)
+		ts, err = b.c.ProvideAuthenticationSecret(sec.lineAnswer)
+		same()
 		log = append(log, fmt.Sprintf("%s smpsecret err=%s", b.tag, otr3.VerifErrClass(err)))
 		push(b, ts)
 		settle()
@@ -292,15 +373,21 @@ func concRun(seed int64, sy concSync) ([]string, []otr3.ValidMessage) {
 			starter, answerer = b, a
 		}
 		slowRead := r.Intn(2)
-		secret := []byte(fmt.Sprintf("secret %d of pair %s", round, pairTag))
 		ok := a.c.IsEncrypted() && b.c.IsEncrypted()
+		if chain {
+			sy.waitStart(round)
+		}
 		if ok {
 			age()
-			ts, err := starter.c.StartAuthenticate("", secret)
+			same := bufs.hold("StartAuthenticate (secret)", starter.tag, sec.roundStart[round])
+			ts, err := starter.c.StartAuthenticate("", sec.roundStart[round])
+			same()
+			sy.started(round)
 			log = append(log, fmt.Sprintf("%s smpstart round %d err=%s", starter.tag, round, otr3.VerifErrClass(err)))
 			push(starter, ts)
 			settle()
 		}
+		sy.started(round)
 		if chain {
 			sy.waitPrev(round)
 		} else {
@@ -322,7 +409,9 @@ func concRun(seed int64, sy concSync) ([]string, []otr3.ValidMessage) {
 			}
 			age()
 			var err error
-			ts, err = answerer.c.ProvideAuthenticationSecret(secret)
+			same := bufs.hold("ProvideAuthenticationSecret", answerer.tag, sec.roundAnswer[round])
+			ts, err = answerer.c.ProvideAuthenticationSecret(sec.roundAnswer[round])
+			same()
 			g.after = nil
 			how := "at the same moment as the other pairs"
 			if chain {
@@ -336,7 +425,7 @@ func concRun(seed int64, sy concSync) ([]string, []otr3.ValidMessage) {
 			settle()
 		}
 	}
-	return log, held
+	return log, held, bufs
 }
 
 // One more pair, of a different kind: one side's long-term key comes from a libotr key file (ImportKeys
@@ -345,9 +434,10 @@ func concRun(seed int64, sy concSync) ([]string, []otr3.ValidMessage) {
 // to sign - and that is all: nobody else in the process may notice. The first attempts are made before
 // the barrier that precedes the SMP runs of the ordinary pairs (every one of those runs comes after
 // them), the others while these runs are under way.
-func concWideRun(seed int64, barrier func()) []string {
+func concWideRun(seed int64, barrier func()) ([]string, *concBufs) {
 	r := rand.New(rand.NewSource(seed))
 	var log []string
+	bufs := &concBufs{}
 	pairTag := fmt.Sprintf("w%x", uint32(seed)&0xffff)
 	attempt := func(k int) {
 		bits := []uint{224, 256}[r.Intn(2)]
@@ -392,7 +482,9 @@ func concWideRun(seed int64, barrier func()) []string {
 			var nx []otr3.ValidMessage
 			for _, m := range ms {
 				otr3.VerifShiftClock(to.c, 2*time.Hour)
+				same := bufs.hold("Receive", to.tag, m)
 				plain, ts, err := to.c.Receive(m)
+				same()
 				failed = failed || err != nil
 				log = append(log, fmt.Sprintf("%s recv plain=%x err=%s n=%d %s", to.tag, plain, otr3.VerifErrClass(err), len(ts), otr3.VerifSnapString(to.c)))
 				nx = append(nx, ts...)
@@ -410,7 +502,7 @@ func concWideRun(seed int64, barrier func()) []string {
 		attempt(k)
 	}
 	barrier()
-	return log
+	return log, bufs
 }
 
 // what the replies handed out earlier look like now
@@ -452,10 +544,23 @@ func init() {
 				olog.viol("C20", "package-slice-with-spare-capacity:"+name, fmt.Sprintf("package-level slice %s has len %d and cap %d: append(%s, …) writes shared memory", name, lc[0], lc[1], name))
 			}
 		}
+		// the byte slices handed to the library, as found after each call
+		report := func(run string, cb *concBufs) {
+			if cb == nil {
+				return
+			}
+			olog.checked["C20"] += cb.checked
+			dist["conc:caller-buffers-checked"] += cb.checked
+			for _, h := range cb.hits {
+				olog.viol("C20", "caller-buffer-modified", fmt.Sprintf("%s: %s", run, h))
+			}
+		}
 		solo := make([][]string, n)
 		for i := 0; i < n; i++ {
-			// alone: the replies are looked at again before any other conversation exists
-			lg, held := concRun(seed*100000+int64(i), concAlone)
+			// alone: the replies are looked at again before any other conversation exists; the buffers with
+			// the secrets are this pair's own
+			lg, held, cb := concRun(seed*100000+int64(i), concAlone, newConcSecrets())
+			report(fmt.Sprintf("pair %d (seed %d) run alone", i, seed*100000+int64(i)), cb)
 			solo[i] = append(lg, heldLines(held)...)
 			for _, l := range solo[i] {
 				if strings.HasPrefix(l, "held reply") || strings.Contains(l, "recv damaged") {
@@ -476,6 +581,8 @@ func init() {
 		for round := 0; round < 2; round++ {
 			conc := make([][]string, n+1) // the last one is the pair with the wide key
 			heldAll := make([][]otr3.ValidMessage, n)
+			bufsAll := make([]*concBufs, n+1)
+			shared := newConcSecrets() // one set of buffers for all pairs of this run
 			var wg sync.WaitGroup
 			// barriers: everybody waits until all participants have arrived (one that panicked before has
 			// arrived as well, see the deferred call)
@@ -517,9 +624,11 @@ func init() {
 			const smpRounds = concFreeRounds + concChainRounds
 			insideCh, answeredCh := make([][]chan struct{}, n), make([][]chan struct{}, n)
 			insideDone, answeredDone := make([][]bool, n), make([][]bool, n)
+			startedCh, startedDone := make([][]chan struct{}, n), make([][]bool, n)
 			for i := 0; i < n; i++ {
-				insideDone[i], answeredDone[i] = make([]bool, smpRounds), make([]bool, smpRounds)
+				insideDone[i], answeredDone[i], startedDone[i] = make([]bool, smpRounds), make([]bool, smpRounds), make([]bool, smpRounds)
 				for k := 0; k < smpRounds; k++ {
+					startedCh[i] = append(startedCh[i], make(chan struct{}))
 					insideCh[i] = append(insideCh[i], make(chan struct{}))
 					answeredCh[i] = append(answeredCh[i], make(chan struct{}))
 				}
@@ -554,6 +663,17 @@ func init() {
 							close(answeredCh[i][round])
 						}
 					},
+					waitStart: func(round int) {
+						if p := pos(round); p < n-1 {
+							<-startedCh[at(round, p+1)][round]
+						}
+					},
+					started: func(round int) {
+						if !startedDone[i][round] {
+							startedDone[i][round] = true
+							close(startedCh[i][round])
+						}
+					},
 				}
 			}
 			for i := 0; i <= n; i++ {
@@ -568,20 +688,28 @@ func init() {
 					// whether it is through or panicked: the others must not wait for this pair any more
 					defer leaveAll()
 					if i == n {
-						conc[i] = concWideRun(wideSeed, barrier)
+						conc[i], bufsAll[i] = concWideRun(wideSeed, barrier)
 					} else {
 						sy := syncOf(i)
 						defer func() {
 							leavePairs()
 							for k := 0; k < smpRounds; k++ {
+								sy.started(k)
 								sy.answered(k)
 							}
 						}()
-						conc[i], heldAll[i] = concRun(seed*100000+int64(i), sy)
+						conc[i], heldAll[i], bufsAll[i] = concRun(seed*100000+int64(i), sy, shared)
 					}
 				}(i)
 			}
 			wg.Wait()
+			for i := 0; i <= n; i++ {
+				who := fmt.Sprintf("pair %d (seed %d) in concurrent run %d, every secret in one buffer per role given to all %d pairs", i, seed*100000+int64(i), round, n)
+				if i == n {
+					who = fmt.Sprintf("pair with the imported wide-q key (seed %d) in concurrent run %d", wideSeed, round)
+				}
+				report(who, bufsAll[i])
+			}
 			wide[round] = conc[n]
 			conc = conc[:n]
 			// concurrently: the replies are looked at again when all conversations are done
@@ -624,7 +752,8 @@ func init() {
 		// the pair with the wide key alone (after everybody else: the ordinary pairs ran alone in a process
 		// that had not seen such a key yet)
 		{
-			alone := concWideRun(wideSeed, func() {})
+			alone, cb := concWideRun(wideSeed, func() {})
+			report(fmt.Sprintf("pair with the imported wide-q key (seed %d) run alone", wideSeed), cb)
 			refused := 0
 			for _, l := range alone {
 				if strings.Contains(l, "refused with an error: true, encrypted: false/false") {
